@@ -43,6 +43,10 @@ pub enum Backend {
     /// (this binary re-executed as `mimium-cli <file> --backend=wasm --emit-wasm` via `lib_main`),
     /// `prepare_hot_swap_wasm_payload(bytes, None, None)`, `update_old_program`
     WasmCli,
+    /// the VM played through the real `LocalBufferDriver::play()` in blocks (offline rendering
+    /// and block-based hosts): the driver, not the simulator, owns the sample clock. Only the
+    /// C11 engine drives it (`sched::run`); `Sut::start` refuses it.
+    VmDriver,
 }
 impl Backend {
     pub fn name(&self) -> &'static str {
@@ -53,10 +57,11 @@ impl Backend {
             Backend::WasmP4 => "wasm_p4",
             Backend::VmCli => "vm_cli",
             Backend::WasmCli => "wasm_cli",
+            Backend::VmDriver => "vm_driver",
         }
     }
     pub fn is_wasm(&self) -> bool {
-        !matches!(self, Backend::Vm | Backend::VmCli)
+        !matches!(self, Backend::Vm | Backend::VmCli | Backend::VmDriver)
     }
     /// the default CLI WASM path: no skeleton reaches the runtime (known finding for C07)
     pub fn is_wasm_no_skeleton(&self) -> bool {
@@ -78,6 +83,19 @@ pub enum RetireMode {
 pub struct SutOptions {
     pub with_scheduler: bool,
     pub sample_rate: u32,
+    #[serde(default)]
+    pub self_init_0: bool,
+}
+
+impl SutOptions {
+    pub fn lang_config(&self) -> Config {
+        use mimium_lang::compiler::bytecodegen::SelfEvalMode;
+        Config {
+            compiler: mimium_lang::compiler::Config {
+                self_eval_mode: if self.self_init_0 { SelfEvalMode::ZeroAtInit } else { SelfEvalMode::SimpleState },
+            },
+        }
+    }
 }
 
 /// Mirror of `mimium-cli` `OldWasmProgram`.
@@ -269,7 +287,7 @@ fn make_ctx(
     driver_plugin: Option<Box<dyn Plugin>>,
 ) -> ExecContext {
     let plugins: Vec<Box<dyn Plugin>> = driver_plugin.into_iter().collect();
-    let mut ctx = ExecContext::new(plugins.into_iter(), path, Config::default());
+    let mut ctx = ExecContext::new(plugins.into_iter(), path, opts.lang_config());
     if opts.with_scheduler {
         ctx.add_system_plugin(mimium_scheduler::get_default_scheduler_plugin());
     }
@@ -287,6 +305,7 @@ impl Sut {
     ) -> Result<Sut, String> {
         let (tx, rx) = mpsc::channel::<ProgramPayload>();
         match backend {
+            Backend::VmDriver => Err("vm_driver is played through LocalBufferDriver, not through Sut".into()),
             Backend::Vm => {
                 let driver = LocalBufferDriver::new(0);
                 let count = driver.count.clone();
@@ -321,7 +340,7 @@ impl Sut {
                 let file = Self::new_sim_file(src)?;
                 let driver = LocalBufferDriver::new(0);
                 let count = driver.count.clone();
-                let mut ctx = mimium_cli::get_default_context(Some(file.clone()), false, false, Config::default());
+                let mut ctx = mimium_cli::get_default_context(Some(file.clone()), false, false, opts.lang_config());
                 ctx.add_plugin(driver.get_as_plugin());
                 ctx.prepare_machine(src).map_err(errs_to_string)?;
                 let _ = ctx.run_main();
@@ -352,7 +371,7 @@ impl Sut {
                 // mirrors the `_ if options.use_wasm` branch of `mimium_cli::run_file`
                 use mimium_lang::compiler::wasmgen::WasmGenerator;
                 let file = Self::new_sim_file(src)?;
-                let mut ctx = mimium_cli::get_default_context(Some(file.clone()), false, true, Config::default());
+                let mut ctx = mimium_cli::get_default_context(Some(file.clone()), false, true, opts.lang_config());
                 ctx.prepare_compiler();
                 let mut ext_fns = ctx.get_extfun_types();
                 ext_fns.sort_by(|a, b| a.name.as_str().cmp(b.name.as_str()));
@@ -513,7 +532,7 @@ impl Sut {
             };
         }
         let r = guarded(|| match backend {
-            Backend::VmCli | Backend::WasmCli => unreachable!(),
+            Backend::VmCli | Backend::WasmCli | Backend::VmDriver => unreachable!(),
             Backend::Vm => match self.compiler.as_ref().unwrap().emit_bytecode(src) {
                 Ok(prog) => Compiled::Payload(ProgramPayload::VmProgram(prog)),
                 Err(e) => Compiled::Failed(errs_to_string(e)),
